@@ -69,6 +69,16 @@ Definition unify_code (p : list nat) (k : Z) : Z :=
   if k <? 0 then -1 else Z.of_nat (get 0%nat p (Z.to_nat k)).
 Definition unify_codes (p : list nat) (codes : list Z) : list Z := map (unify_code p) codes.
 
+(* core.py: reducer used to merge the chunk results of GroupBy.<func_name>:
+   nansum for size / count / sum_squares (and sum), the nan-version where ScalarFuncs has one,
+   otherwise the reducer itself *)
+Definition core_merge (r : rname) : rname :=
+  match r with
+  | Rnansum | Rnansum_squares | Rsum => Rnansum
+  | Rnanmin => Rnanmin | Rnanmax => Rnanmax | Rfirst => Rfirst | Rlast => Rlast
+  | other => other
+  end.
+
 (* the per-chunk kernel call (ngroups = len(pointer), the trailing null slot is dropped) as cells *)
 Definition chunk_cells (r : rname) (np : nat) (rows : list (Z * V)) : list (V * Z) :=
   let st := fold_left (fun st row => gbr_row o (reducer_of o r) st (fst row) (snd row)) rows
